@@ -155,14 +155,20 @@ def paramsValid (e : Env) (subs : List SubD) : Bool :=
 structure Bank where
   bal : AList Coins := []
   burned : Coins := []        -- cumulative burns (supply decrease)
+  locked : AList Coins := []  -- `LockedCoins` per address (vesting accounts); absent = nothing locked
 deriving Repr, Inhabited
 
 def Bank.balance (b : Bank) (addr : String) : Coins := (b.bal.get? addr).getD []
+def Bank.lockedOf (b : Bank) (addr : String) : Coins := (b.locked.get? addr).getD []
 
-/-- `SendCoins`: fails (err) on insufficient funds -/
+/-- every coin of `c` is covered by what `src` can spend (balance minus locked) -/
+def Bank.spendableCovers (b : Bank) (src : String) (c : Coins) : Bool :=
+  c.all (fun kv => amountOf (b.balance src) kv.1 - amountOf (b.lockedOf src) kv.1 ≥ kv.2)
+
+/-- `SendCoins`: fails (err) when the spendable balance does not cover the amount -/
 def Bank.send (b : Bank) (src dst : String) (c : Coins) : Option Bank :=
   let sb := b.balance src
-  if !covers sb c then none else
+  if !b.spendableCovers src c then none else
   let b1 := b.bal.set src (CoinList.add sb (neg c))
   let db := (b1.get? dst).getD []
   some { b with bal := b1.set dst (CoinList.add db c) }
@@ -170,7 +176,7 @@ def Bank.send (b : Bank) (src dst : String) (c : Coins) : Option Bank :=
 def Bank.burn (b : Bank) (src : String) (c : Coins) : Option Bank :=
   let sb := b.balance src
   if !covers sb c then none else
-  some { bal := b.bal.set src (CoinList.add sb (neg c)), burned := CoinList.add b.burned c }
+  some { b with bal := b.bal.set src (CoinList.add sb (neg c)), burned := CoinList.add b.burned c }
 
 /-! ## BeginBlocker -/
 
